@@ -604,6 +604,8 @@ class Normalizer:
                 body = self.local_passes(body, fi)
                 if ast.dump(ast.Module(body=body, type_ignores=[])) == before:
                     break
+            if self._local_touched and q not in self.log:
+                self.log.setdefault(q, []).append("local idioms rewritten (functional forms, loops over literals, aliases)")
             self.memo[q] = body
             return body
         finally:
